@@ -191,10 +191,17 @@ def main(inp, outp):
         tmax = (30 * 86400.0 if fscale == 1.0 else min(30 * 86400.0, 2000.0 / n)) if not hyp else min(30 * 86400.0, 6.0 / n)
         t1, t2 = float(rng.uniform(-tmax, tmax)), float(rng.uniform(-tmax, tmax))
         data = {"kep": kep, "t1": t1, "t2": t2, "central_body": job.get("body", "earth"), "mu": fmu}
+        # dt is ELAPSED time: the target dates are handed over under the six time-scale labels in turn (the epoch stays in UTC, or is
+        # itself relabelled every third orbit) - another label is another clock reading of the same instant
+        labs = ["UTC", "TT", "TAI", "GPS", "TDB", "UT1"]
+        l1, l2 = labs[_ % 6], labs[(_ // 6 + 2) % 6]
+        if _ % 3 == 2:
+            o = Orbit(kep, DATE.change_scale(labs[(_ // 3) % 6]), "keplerian_mean", fframe, "Kepler")
+        data.update(target_labels=[l1, l2], epoch_label=o.date.scale.name)
         try:
-            p1 = o.propagate(DATE + timedelta(seconds=t1))
-            p12 = Orbit(np.asarray(p1), p1.date, p1.form, p1.frame, "Kepler").propagate(p1.date + timedelta(seconds=t2))
-            d = o.propagate(DATE + timedelta(seconds=t1) + timedelta(seconds=t2))
+            p1 = o.propagate((DATE + timedelta(seconds=t1)).change_scale(l1))
+            p12 = Orbit(np.asarray(p1), p1.date, p1.form, p1.frame, "Kepler").propagate((p1.date + timedelta(seconds=t2)).change_scale(l2))
+            d = o.propagate((DATE + timedelta(seconds=t1) + timedelta(seconds=t2)).change_scale(l2))
         except Exception as ex:
             clause("propagation completes", False, "kepler/raises[float]", f"{type(ex).__name__}: {ex} on {kep}", data)
             continue
